@@ -1,0 +1,17 @@
+//go:build verif
+
+// Contracts for package node, read by the verifier in /verif (govc). Comment-only: this file
+// declares nothing and is compiled only with -tags verif.
+package node
+
+//@ spec func refw0(id uint64) uint64 = id & 262143
+//@ spec func refw1(id uint64) uint64 = id >> 46
+
+//@ func (n *node) MakeRef
+//@   props C06 C07
+//@   modifies n.uniqID
+//@   ensures [node_and_creation] result.Node == old(n.name) && result.Creation == old(n.creation)
+//@   ensures [counter] n.uniqID == old(n.uniqID) + 1
+//@   ensures [words] result.ID[0] == refw0(old(n.uniqID) + 1) && result.ID[1] == refw1(old(n.uniqID) + 1) && result.ID[2] == 0
+
+//@ lemma MakeRef_injective props C06 C07: forall a, b uint64 :: a != b ==> (refw0(a) != refw0(b) || refw1(a) != refw1(b))
